@@ -20,12 +20,9 @@ def c10(tier):
         for cpus in (2, 4):
             runs.append(H("c10_morph", "plain", 120, "12,12,8", cpus=cpus, timeout_per_case=30,
                           params=dict(maxitems=2500, mode="loop")))
-        # TSan only as a further schedule-perturbing configuration (reports are not judged here).
-        # selfloops=0: while the self-loop removeEdge defect is open, edges.erase(end()) on a sorted-neighbour graph
-        # becomes a memmove of ~2^64 bytes which TSan's interceptor walks for hours instead of faulting (plain and asan
-        # die at once and are reported); drop the parameter once the defect is fixed.
-        runs.append(H("c10_morph", "tsan", 200, "4,4,4,4", timeout_per_case=25, params=dict(maxitems=1500, selfloops=0)))
-        runs.append(H("c10_sepinout", "tsan", 80, "3,5", timeout_per_case=25, params=dict(maxitems=1500, selfloops=0)))
+        # TSan only as a further schedule-perturbing configuration (reports are not judged here)
+        runs.append(H("c10_morph", "tsan", 200, "4,4,4,4", timeout_per_case=25, params=dict(maxitems=1500)))
+        runs.append(H("c10_sepinout", "tsan", 80, "3,5", timeout_per_case=25, params=dict(maxitems=1500)))
     return runs
 
 
